@@ -135,13 +135,19 @@ def cargo_build(build):
     env = {'RUSTFLAGS': f'--cfg {GUARD}'}
     cmd = ['cargo', 'build', '--offline', '--quiet']
     tdir = 'target'
-    if build == 'unsafe':
+    profile = 'debug'
+    if build.endswith('-opt'):
+        # the same harness at opt-level 3 (cargo's release profile): behaviour that depends on what the optimiser makes of the
+        # raw-pointer code (thorough tier only)
+        cmd += ['--release']
+        profile = 'release'
+    if build.startswith('unsafe'):
         cmd += ['--features', 'unsafe_impl']
         tdir = 'target-unsafe'
     cmd += ['--target-dir', os.path.join(HARNESS, tdir)]
     lock_src = os.path.join(REPO, 'Cargo.lock')
     rc, out, err = sh(cmd, cwd=HARNESS, env=env, timeout=3000)
-    return rc == 0, out + err, os.path.join(HARNESS, tdir, 'debug', 'dcv-harness')
+    return rc == 0, out + err, os.path.join(HARNESS, tdir, profile, 'dcv-harness')
 
 
 DRIVER = os.path.join(LEAN, '.lake', 'build', 'bin', 'dcv-driver')
@@ -378,7 +384,12 @@ def run_check(mod, tier, seed, replay=None):
         # 4. driver + harness
         ok_drv, log_drv = lake_build(['dcv-driver'])
         bins, build_logs = {}, {}
-        for b in getattr(mod, 'BUILDS', ['safe']):
+        extra_builds = sorted(getattr(mod, 'OPT_BUILDS', {}).values()) if tier == 'thorough' and not replay else []
+        if replay:
+            rb = (json.load(open(replay)).get('case') or {}).get('build')
+            if rb and rb not in getattr(mod, 'BUILDS', ['safe']):
+                extra_builds = [rb]
+        for b in list(getattr(mod, 'BUILDS', ['safe'])) + extra_builds:
             okb, logb, path = cargo_build(b)
             if not okb:
                 build_logs[b] = logb[-1500:]
@@ -418,6 +429,9 @@ def run_check(mod, tier, seed, replay=None):
     else:
         cases = list(mod.corpus()) if hasattr(mod, 'corpus') else []
         cases += list(mod.generate(rng, tier))
+        if tier == 'thorough' and getattr(mod, 'OPT_BUILDS', None):
+            # every case of a raw-pointer build is run a second time against the optimised harness
+            cases += [Case(c.header, c.ops, mod.OPT_BUILDS[c.build], c.tags + ('opt-level-3',)) for c in cases if c.build in mod.OPT_BUILDS]
     verdicts, trace_lines, errors = ({}, 0, [])
     if ok_drv and cases:
         verdicts, trace_lines, errors = run_cases(prop, bins, cases, timeout=getattr(mod, 'SHARD_TIMEOUT', 300))
